@@ -761,7 +761,7 @@ package termincommittee
 //@   assert before call SendConsensusMessage [O10.what-goes-to-the-transport-is-the-conversion-of-this-vote-addressed-to-that-member] RawOf($message, message) && len($recipients) == 1 && $recipients[0] == targetMemberId
 //@   requires [O10.6.only-votes-are-unicast] istype(message, *interfaces.ViewChangeMessage)
 //@   requires [C11:O11.1.an-emitted-vote-is-one-its-leader-accepts] EmittedVote(tic, dyn(message, *interfaces.ViewChangeMessage))
-//@   requires [C11:O11.1.the-proof-assembled-into-an-emitted-vote-is-one-its-leader-accepts] EmittedVoteProof(tic, dyn(message, *interfaces.ViewChangeMessage))
+//@   requires [O11.1.the-proof-assembled-into-an-emitted-vote-is-one-its-leader-accepts-and-its-block-is-attached] EmittedVoteProof(tic, dyn(message, *interfaces.ViewChangeMessage))
 //@   requires [O10.6.vote-for-the-view-just-entered] dyn(message, *interfaces.ViewChangeMessage).content.SignedHeader().View() == tic.State.view
 //@   requires [O10.6.vote-views-strictly-increase] dyn(message, *interfaces.ViewChangeMessage).content.SignedHeader().View() > lastVC
 //@   requires [O10.6.addressed-to-the-leader-of-that-view] targetMemberId == LeaderOf(tic.committeeMembers, dyn(message, *interfaces.ViewChangeMessage).content.SignedHeader().View())
